@@ -73,7 +73,9 @@ struct Job {
         v = w.View();
         {
             std::string d = w.Compare(v);
-            if (!d.empty()) { out.count("harness_error"); out.sample("HARNESS-ERROR prepared coins differ from the reference (C44's subject): " + d); return; }
+            // balances / AvailableCoins differing from the ledger scan is C44's subject; here the reference's spendable
+            // set stays the yardstick for "allowed inputs"
+            if (!d.empty()) { out.count("prepared_coins_differ_from_reference"); out.sample("note: wallet view of coin set " + MaskStr() + " differs from the reference: " + d); }
         }
         change_scripts = InternalScripts(w.W(), 400);
         max_tx_fee = w.W().m_default_max_tx_fee;
@@ -364,7 +366,7 @@ int main(int argc, char** argv)
     E.assume("test-accept is not demanded when the caller preselected the immature coinbase");
     E.set("coin_sets", (uint64_t)masks.size());
     E.set("coin_sets_done", pool.jobs_done);
-    for (const char* k : {"created", "failed", "failed_insufficient", "failed_dust", "failed_maxfee", "failed_other", "with_change", "without_change", "sffo_created", "sffo_negative_share", "accepted", "not_submitted_immature_preselected", "cc_none", "cc_pre", "cc_preonly", "cc_external", "cc_chg-legacy", "cc_chg-bech32m", "cc_unsafe", "cc_chgpos0", "rate_100", "rate_1000", "rate_10000", "rate_1000000"})
+    for (const char* k : {"created", "failed", "failed_insufficient", "failed_dust", "failed_maxfee", "failed_other", "prepared_coins_differ_from_reference", "with_change", "without_change", "sffo_created", "sffo_negative_share", "accepted", "not_submitted_immature_preselected", "cc_none", "cc_pre", "cc_preonly", "cc_external", "cc_chg-legacy", "cc_chg-bech32m", "cc_unsafe", "cc_chgpos0", "rate_100", "rate_1000", "rate_10000", "rate_1000000"})
         E.set(k, cnt(k));
     for (auto& s : pool.samples) E.sample(s);
     E.sample("coin kinds: p2wpkh 1.0, p2pkh 0.5, p2tr 0.25, p2sh-p2wpkh 0.125 BTC confirmed; immature coinbase 50; locked 0.3; unconfirmed change of an own mempool tx 0.15; unconfirmed payment from a stranger 0.11");
